@@ -142,8 +142,12 @@ def hist_unit(u, res):
                 v, mdl, idx = assert_equal(res, name, cflat(D), cflat(Df), Abox, tol=1e-8, chunk=24)
                 key = "%s:hist:%s" % (PID, "-".join(h))
                 if v == "sat":
-                    a = harness.model_floats(mdl, syms["A"]); b = harness.model_floats(mdl, syms["B"])
-                    ok, what = replay(h, a, b, harness.model_floats(mdl, syms["f"]))
+                    if mdl is None:          # the difference is a constant: any values expose it
+                        rr = np.random.default_rng(2)
+                        a = rr.uniform(-1, 1, len(syms["A"])); b = rr.uniform(-1, 1, len(syms["B"])); fvv = rr.uniform(-1, 1, len(syms["f"]))
+                    else:
+                        a = harness.model_floats(mdl, syms["A"]); b = harness.model_floats(mdl, syms["B"]); fvv = harness.model_floats(mdl, syms["f"])
+                    ok, what = replay(h, a, b, fvv)
                     (res.violations if ok else res.unconfirmed).append({"key": key, "what": what, "replay": {"history": list(h)}})
                 elif v == "unknown":
                     res.notes.append("inconclusive " + key)
